@@ -6,8 +6,7 @@
 (* in the last blocks, Hostile = Block(<<entry>>), Run = the duty blocks of the pigeons up to the next    *)
 (* begin/end-blocker heights - or  Prepare ; Gate ; Run  (the version gate, the only permitted stop).    *)
 (*   Sel = "diag"  every entry once, height class and stage rotating with the entry and class index,      *)
-(*                 plus every stage (at height class m303, where every kind of queued request exists)     *)
-(*                 for the kinds whose values reach the end blockers (Focus)                              *)
+(*                 plus every stage for the kinds whose values reach the end blockers (Focus)             *)
 (*   Sel = "full"  the whole product                                                                      *)
 EXTENDS ChainHistory, Json
 CONSTANTS Sel
@@ -20,10 +19,11 @@ HSeq == <<"m50", "other", "m10", "m300", "m303">>
 SSeq == <<"idle", "fresh", "signed", "elected", "relayed">>
 CSeq == <<"negative", "zero", "one", "huge63", "huge64", "huge255", "empty", "overlong", "malformed">>
 CIdx(c) == CHOOSE j \in DOMAIN CSeq : CSeq[j] = c
-Focus == {"UpsertRelayerFee", "UpsertRelayerFee/other", "AddMessageEstimates", "AddMessageEstimates/all", "AddEvidence", "AddEvidence/all",
-          "AddEvidenceBalances/all", "SetErrorData", "SetPublicAccessData", "AddMessagesSignatures", "EstimateBatchGas/all",
-          "SendToPalomaClaim/all", "BatchSendToRemoteClaim/all", "LightNodeSaleClaim/all", "ExecuteJob", "DeployUserSmartContract",
-          "AddExternalChainInfoForValidator", "SendToRemote"}
+Focus == {"UpsertRelayerFee", "AddMessageEstimates", "AddMessageEstimates/all", "AddEvidence", "AddEvidence/all", "AddEvidenceTx/all", "AddEvidenceBalances/all",
+          "SetErrorData", "SetPublicAccessData", "EstimateBatchGas", "EstimateBatchGas/all", "ConfirmBatch", "SendToPalomaClaim/all",
+          "BatchSendToRemoteClaim/all", "LightNodeSaleClaim/all"}
+\* balance requests and transfer batches exist from height 300 on (the stage scripts put a transfer into the pool)
+FocusHC(k) == IF k \in {"AddEvidenceBalances/all", "EstimateBatchGas", "EstimateBatchGas/all", "ConfirmBatch", "BatchSendToRemoteClaim/all"} THEN "m303" ELSE "other"
 
 \* Metadata.Creator / Signers are handled by the ante chain in the same way for every kind
 IsMeta(p) == p \in {"Metadata.Creator", "Metadata.Signers", "Metadata.Signers[0]"}
@@ -31,7 +31,7 @@ Selected(i, c, s, hc) ==
   \/ Sel = "full"
   \/ /\ Sel = "diag"
      /\ \/ (hc = HSeq[((i + CIdx(c)) % 5) + 1] /\ s = SSeq[((i + 2 * CIdx(c)) % 5) + 1])
-        \/ (Cat[i][1] \in Focus /\ hc = "m303" /\ ~IsMeta(Cat[i][2]))
+        \/ (Cat[i][1] \in Focus /\ hc = FocusHC(Cat[i][1]) /\ ~IsMeta(Cat[i][2]))
 
 
 GInit == Init /\ hist = <<>> /\ phase = "start"
